@@ -275,6 +275,43 @@ pub fn main(args: &[String]) -> i32 {
             }
             0
         }
+        "comp" => {
+            install_panic_hook();
+            let engine = arg(args, "--engine").unwrap_or("");
+            let p = crate::comp::CompParams {
+                seed: arg(args, "--seed").and_then(|s| s.parse().ok()).unwrap_or(1),
+                budget: arg(args, "--budget").and_then(|s| s.parse().ok()).unwrap_or(1),
+                shard: arg(args, "--shard").and_then(|s| s.parse().ok()).unwrap_or(0),
+                shards: arg(args, "--shards").and_then(|s| s.parse().ok()).unwrap_or(1),
+                miri: args.iter().any(|a| a == "--miri"),
+            };
+            let o = match std::panic::catch_unwind(|| crate::check::run_comp_engine(engine, &p)) {
+                Ok(o) => o,
+                Err(_) => {
+                    let (msg, loc) = crate::sim::cluster::LAST_PANIC.with(|p| p.borrow_mut().take()).unwrap_or_default();
+                    println!("HARNESS-ERROR engine {} panicked at {}: {}", engine, loc, msg);
+                    return 3;
+                }
+            };
+            println!(
+                "COMP engine={} shard={}/{} cases={} ops={} distinct={} violations={}",
+                engine,
+                p.shard,
+                p.shards,
+                o.cases,
+                o.ops,
+                o.stats.distinct.values().map(|s| s.len()).sum::<usize>(),
+                o.violations.len()
+            );
+            for v in &o.violations {
+                println!("COMP-VIOLATION {} :: {}", v.sig, v.detail.replace('\n', " "));
+            }
+            if o.violations.is_empty() {
+                0
+            } else {
+                1
+            }
+        }
         "check" => {
             let prop = arg(args, "--prop").unwrap_or("").to_string();
             let a = crate::check::CheckArgs {
@@ -287,10 +324,13 @@ pub fn main(args: &[String]) -> i32 {
                 threads: arg(args, "--threads").and_then(|s| s.parse().ok()).unwrap_or(16),
                 scale: arg(args, "--scale").and_then(|s| s.parse().ok()).unwrap_or(1.0),
             };
+            if let Some(spec) = crate::check::comp_spec_of(&prop) {
+                return crate::check::run_comp_check(&a, spec);
+            }
             match crate::check::spec_of(&prop) {
                 Some(spec) => crate::check::run_cluster_check(&a, spec),
                 None => {
-                    eprintln!("no cluster-engine check registered for {}", prop);
+                    eprintln!("no check registered for {}", prop);
                     2
                 }
             }
